@@ -116,8 +116,10 @@ type usagePair struct {
 
 // updateUsageQueue zeroes the accumulated usage all ActiveUsers valve and put the usage data im usageUpdateQueue
 func (panel *userPanel) updateUsageQueue() {
-	panel.activeUsersM.Lock()
+	// lock order: usageUpdateQueueM before activeUsersM, as in commitUpdate; the other way
+	// round two overlapping upload rounds deadlock each other
 	panel.usageUpdateQueueM.Lock()
+	panel.activeUsersM.Lock()
 	for _, user := range panel.activeUsers {
 		if user.bypass {
 			continue
